@@ -425,6 +425,12 @@ func pollCases() []PollCase {
 		out = append(out, PollCase{Path: "$[*] > $[*]", Kind: "array", N: n, Work: "n2"}, PollCase{Path: "strict $[*] == $[*]", Kind: "array", N: n, Work: "n2"}, PollCase{Path: `$[*] starts with "a"`, Kind: "array", N: n * n / 4, Work: "n"},
 			PollCase{Path: "strict $ ? (@[*] < $[*])", Kind: "array", N: n, Work: "n2"})
 	}
+	// one item against a long sequence, on either side: the pair loop makes its own looks (not only one per left item)
+	for _, n := range []int{20000, 200000} {
+		for _, w := range []string{"$[0] > %s", "%s > $[0]", "strict $[0] == %s", "strict %s != $[0]", "strict $ ? (@[0] < %s)", "1 <= %s", "!(%s < $[1])"} {
+			out = append(out, PollCase{Path: fmt.Sprintf(w, "$[*]"), Kind: "array", N: n, Work: "n", Base: "$[*]"})
+		}
+	}
 	return out
 }
 
